@@ -167,7 +167,7 @@ PLANS = {
         'assumptions': COMMON_ASSUMPTIONS + ['witness lists (simulation runs, derivations) are not compared across replicas: C15 allows any valid witness',
                                              'CFG and PDA results are compared on words of bounded length (<= 4 resp. <= 3)',
                                              'a consistent exception (e.g. dfa_make_total: RecursionError) is agreement, not a violation of this property'],
-        'expected_probes': ['nontrivial_steps', 'solo_reexecutions', 'pda_call_with_truncated_closure', 'inplace_edit_between_calls'],
+        'expected_probes': ['nontrivial_steps', 'solo_reexecutions', 'pda_call_with_truncated_closure', 'inplace_edit_between_calls', 'repeated_calls'],
         'technique': 'deterministic simulation of replicas: one seeded operation history executed by several fresh interpreters (different PYTHONHASHSEED, logging on/off) and re-executed step-wise in pristine forks; differential oracle on language-level outcome digests plus snapshots after every step; ddmin over the step list inside the same two interpreters; replay files confirmed in fresh interpreters; twins, in-place edits and undecodable alphabets in the sessions',
         'level_text': 'seeded sampling of call histories x hash seeds x logging; argument integrity is checked after every step in every replica, and replica / solo / logging agreement is checked on every step outcome; evidence, not proof',
         'design_ref': 'DESIGN.md 5.8',
